@@ -48,14 +48,41 @@ def sh(cmd, timeout=600, cwd=None, env=None, stdin=None):
         return 124, out + "\n[timeout after %ss]" % timeout
 
 
+SHARDABLE = {"ntt", "expr", "ops", "lanes", "crt", "samp", "gauss", "polyp", "set", "serial", "rb"}
+
+def _run_model(cmd, data, timeout, cwd, e):
+    # the extracted model recurses on unary nat / long lists: give it an unlimited stack
+    cmd = ["bash", "-c", 'ulimit -s unlimited 2>/dev/null; exec "$0" "$@"'] + cmd
+    try:
+        p = subprocess.run(cmd, cwd=cwd, env=e, input=data, stdout=subprocess.PIPE, stderr=subprocess.PIPE, timeout=timeout, text=True, errors="replace")
+        return p.returncode, p.stdout, p.stderr
+    except subprocess.TimeoutExpired as ex:
+        return 124, "", "[timeout]"
+
 def run_io(cmd, data, timeout=900, cwd=None, env=None):
     """run cmd with `data` on stdin; returns (rc, stdout, stderr)."""
     e = dict(os.environ)
     if env:
         e.update(env)
     if isinstance(cmd, list) and cmd and cmd[0].endswith("/model/driver"):
-        # the extracted model recurses on unary nat / long lists: give it an unlimited stack
-        cmd = ["bash", "-c", 'ulimit -s unlimited 2>/dev/null; exec "$0" "$@"'] + cmd
+        # one output line per input line, no state across lines: shard large inputs over the cores (order restored)
+        lines = data.split("\n")
+        if lines and lines[-1] == "": lines = lines[:-1]
+        if len(cmd) > 1 and cmd[1] in SHARDABLE and len(lines) >= 32 and all(l.strip() for l in lines) and not os.environ.get("VERIF_NO_SHARD"):
+            from concurrent.futures import ThreadPoolExecutor
+            n = min(NCPU, max(1, len(lines) // 8))
+            parts = [lines[i::n] for i in range(n)]
+            def one(ls): return _run_model(cmd, "\n".join(ls) + "\n", timeout, cwd, e)
+            with ThreadPoolExecutor(n) as ex: res = list(ex.map(one, parts))
+            bad = [r for r in res if r[0] != 0]
+            if bad: return bad[0]
+            outs = [r[1].split("\n") for r in res]
+            outs = [o[:-1] if o and o[-1] == "" else o for o in outs]
+            if any(len(o) != len(pt) for o, pt in zip(outs, parts)): return 1, "", "sharded model run: line count mismatch"
+            merged = [None] * len(lines)
+            for i in range(n): merged[i::n] = outs[i]
+            return 0, "\n".join(merged) + "\n", "".join(r[2] for r in res)
+        return _run_model(cmd, data, timeout, cwd, e)
     try:
         p = subprocess.run(cmd, cwd=cwd, env=e, input=data, stdout=subprocess.PIPE, stderr=subprocess.PIPE,
                            timeout=timeout, text=True, errors="replace")
